@@ -158,6 +158,23 @@ NOT_APPLICABLE = {
 PENDING = "check not built yet in this round (planned, see DESIGN.md); not claimed until its harness passes on the pinned tree and kills its seeded mutants"
 
 
+GROUND = {
+    "C01": "ground job (float code, real node providers): Gauss-Legendre / Chebyshev 1,2 / generalised Laguerre exact for every degree <= 2n-1 at sampled n",
+    "C04": "Grid.integrate incl. complex integrands is decided by the solver; ground job: integer-dtype nodes give the same grid as their float copy",
+    "C05": "presets: all 86 elements on every run; table layout read off the data, not off the branch taken",
+    "C06": "ground job lemma/radii: Bragg-radius fallback for all 86 elements on both routes",
+    "C07": "ground jobs: end-to-end one-percent clause on 17 presets x 3-5 molecules (known finding: count-layout presets with the default radial grid)",
+    "C08": "ground job: float range (l_max 200) and pole convention of the derivative routine",
+    "C09": "ground jobs: band-limited recovery on 5 real grids, MolGrid.interpolate vs independently built atoms, derivative on the z-axis / at the centre (known finding)",
+    "C12": "ground jobs: converter over every size, all 450 supported grids built with the cache on",
+    "C13": "ground job: cube round trip and cubic/log/linear interpolation reproduction",
+    "C14": "history jobs (points / weights reassigned) are solver-decided",
+    "C16": "ground jobs: robust-core exactness, atomic BVP/IVP accuracy (thorough: linearity, molecule) on the float code with the real SciPy drivers",
+    "C19": "ground job: object-reuse battery on AtomGrid / MolGrid",
+    "C20": "68 concrete end-to-end runs on write-protected inputs complement the symbolic entry points",
+}
+
+
 def main():
     props = [json.loads(l)["id"] for l in open(os.path.join(HERE, "properties.jsonl"))]
     checks = []
@@ -173,7 +190,7 @@ def main():
             replay_cmd_template=f"./check {pid} --replay {{path}}",
             engine="symgrid",
             level_claimed=dict(category="proof", text=c["text"], design_ref=c["ref"]),
-            level_note=c["note"],
+            level_note=c["note"] + ("; NOT solver results, reported separately as ground/concrete: " + GROUND[pid] if pid in GROUND and "ground" in GROUND[pid] or pid == "C20" else ("; " + GROUND[pid] if pid in GROUND else "")),
             technique=c.get("technique", TECH)))
     na = [dict(property_id=p, reason=NOT_APPLICABLE.get(p, PENDING)) for p in props if p not in CLAIMED]
     man = dict(
